@@ -5,9 +5,6 @@ From Verif Require Import Lib.Base Lib.Sx Lib.Err Model.ErrorsPkg.
 Lemma cause_is_root e : is_root (cause e) = true.
 Proof. induction e; cbn; auto. Qed.
 
-Lemma cause_root_form e : exists id m, cause e = Root id m.
-Proof. induction e; cbn; eauto. Qed.
-
 Lemma cause_idem e : cause (cause e) = cause e.
 Proof. induction e; cbn; auto. Qed.
 
@@ -23,18 +20,12 @@ Proof. destruct l; [congruence|reflexivity]. Qed.
 
 Lemma message_chain e : message e = join msg_sep (chain e).
 Proof.
-  induction e as [id m|m e IH|e IH]; cbn [message chain].
+  induction e as [id m|id m k i|id m i IHi|m e IH|e IH]; cbn [message chain].
+  - reflexivity.
+  - reflexivity.
   - reflexivity.
   - rewrite join_cons by apply chain_nonempty. now rewrite IH.
   - exact IH.
-Qed.
-
-Lemma chain_last e : exists pre id m, cause e = Root id m /\ chain e = pre ++ [m].
-Proof.
-  induction e as [id m|m e (pre & id & m' & Hc & Hl)|e (pre & id & m' & Hc & Hl)]; cbn.
-  - exists [], id, m. auto.
-  - exists (m :: pre), id, m'. rewrite Hl. auto.
-  - exists pre, id, m'. auto.
 Qed.
 
 (* ---- one wrapping call ---- *)
@@ -80,6 +71,18 @@ Proof.
   - destruct (nest_some x ops) as (y & H & _). rewrite H. split; discriminate.
   - rewrite nest_nil_start. tauto.
 Qed.
+
+(* a root that has Unwrap but no Cause is the root cause itself; a foreign causer is unwound *)
+Lemma nest_rootU_cause id m k i ops :
+  e_Cause (nest (Some (RootU id m k i)) ops) = Some (RootU id m k i).
+Proof. destruct (nest_some (RootU id m k i) ops) as (y & H & Hc & _). rewrite H. cbn. now rewrite Hc. Qed.
+
+Lemma nest_rootC_cause id m i ops :
+  e_Cause (nest (Some (RootC id m i)) ops) = Some (cause i).
+Proof. destruct (nest_some (RootC id m i) ops) as (y & H & Hc & _). rewrite H. cbn. now rewrite Hc. Qed.
+
+Lemma is_root_cause e : is_root e = true -> cause e = e.
+Proof. destruct e; cbn; congruence. Qed.
 
 (* the three statements of the property, for every nesting over a root *)
 Lemma nest_root_cause id m ops :
